@@ -325,14 +325,14 @@ class AList(AbsValue, HeapObj):
         if isinstance(val, ATerm):
             out_key, out_sort, out_wrap = val.expr, TermS, ATerm
         elif isinstance(val, Obj) and z3.is_expr(val.attrs.get("_name")):
-            out_key, out_sort, out_wrap = val.attrs["_name"], NameS, self.wrap if self.sort == NameS else None
-            if out_wrap is None:
+            if self.sort != NameS:
                 raise Unsupported("map from terms to variables in comprehension")
+            out_key, out_sort, out_wrap = val.attrs["_name"], NameS, I.u_wrap_var
         else:
             raise Unsupported("comprehension over abstract list producing %r" % (val,))
         if z3.eq(out_key, e0):
             return AList(
-                I, self.sort, lambda x: z3.And(_b(src_mem(x)), sub(phi, x)), lambda x: z3.And(_b(src_dup(x)), sub(phi, x)), self.wrap
+                I, self.sort, lambda x: z3.And(_b(src_mem(x)), sub(phi, x)), lambda x: z3.And(_b(src_dup(x)), sub(phi, x)), out_wrap
             )
         # general image (sets: multiplicities of images are not tracked -> only allowed for term lists)
         if out_sort != TermS:
